@@ -136,6 +136,12 @@ def sqltext(expr, func, ctx, depth=0):
             val = single_assignment(func.node, expr.id)
             if val is not None:
                 return sqltext(val, func, ctx, depth + 1)
+            # the loop variable of `for stmt in <constant sequence of statements>`: all of them, as one script
+            loops = [n for n in ast.walk(func.node) if isinstance(n, ast.For) and isinstance(n.target, ast.Name) and n.target.id == expr.id]
+            if len(loops) == 1:
+                seq = folder.try_fold(loops[0].iter, mod, default=None)
+                if isinstance(seq, (tuple, list)) and seq and all(isinstance(x, str) for x in seq):
+                    return SqlText(";\n".join(x.strip().rstrip(";") for x in seq))
             if func.parent is None or expr.id in func.params:
                 return _hole(expr.id)
         f = func.parent
